@@ -46,7 +46,7 @@ PROPS = {
     "C06": spec("C06", [stage_gen.run, stage_ana.run, stage_e2e.run]),
     "C07": spec("C07", [stage_gen.run, stage_ana.run, stage_e2e.run]),
     "C08": spec("C08", [stage_det.run, stage_ana.run, stage_gen.run]),
-    "C09": spec("C09", [stage_names.run, stage_gen.run], [T], ["StubGen.Tables.name_annotation_form"]),
+    "C09": spec("C09", [stage_names.run, stage_gen.run, stage_e2e.run], [T], ["StubGen.Tables.name_annotation_form"]),
     "C10": spec("C10", [stage_gen.run, stage_e2e.run]),
     "C11": spec("C11", [stage_gen.run, stage_e2e.run]),
     "C18": spec("C18", [stage_meta.run, stage_gen.run]),
@@ -54,7 +54,7 @@ PROPS = {
     "C13": spec("C13", [stage_doc.run, stage_gen.run, stage_e2e.run]),
     "C14": spec("C14", [stage_ana.run, stage_e2e.run]),
     "C15": spec("C15", [stage_disc.run], [T], ["StubGen.Tables.excluded_dirs"]),
-    "C16": spec("C16", [stage_gen.run]),
+    "C16": spec("C16", [stage_gen.run, stage_e2e.run]),
     "C19": spec("C19", [stage_types.run], [T], ["StubGen.Tables.type_kinds"]),
     "C20": spec("C20", [stage_gen.run, stage_e2e.run], [T],
                 ["StubGen.Tables.todo_keys", "StubGen.Tables.todo_messages_distinct"]),
